@@ -264,3 +264,14 @@ def run(ctx):
         "samples": accA.samples[:2] + accB.samples[:2],
         "exhaustive": True,
     }
+
+
+def replay(ctx, data):
+    """Re-run the recorded content: filter-level inputs directly, tree-level ones as a one-content tree."""
+    install_rules()
+    inp = data["first"]["input"]
+    if "content" in inp:
+        acc = _filter_work([inp["content"].encode("utf-8")])
+    else:
+        acc = _tree_work([((inp["working_content_committed"].encode("utf-8"),), (inp["checkout"],))])
+    return data["signature"] not in [s for s, _ in acc.violations]
